@@ -37,8 +37,18 @@ class Obj(object):
     """something that travels by reference"""
 
 
-OUTCOMES = ["value-int", "value-text", "value-tuple", "reference", "tuple-with-ref", "raise-ValueError", "raise-StopIteration",
-            "raise-SystemExit", "raise-KeyboardInterrupt", "bad-label", "unknown-handler", "wrong-arity", "args-not-a-pair"]
+def _builtin_exceptions():
+    import builtins
+    out = []
+    for n in sorted(dir(builtins)):
+        o = getattr(builtins, n)
+        if isinstance(o, type) and issubclass(o, BaseException) and o.__name__ == n and n != "GeneratorExit":
+            out.append(n)      # (GeneratorExit is reserved by the interpreter's own statement generators)
+    return out
+
+
+OUTCOMES = ["value-int", "value-text", "value-tuple", "reference", "tuple-with-ref", "bad-label", "unknown-handler", "wrong-arity",
+            "args-not-a-pair"] + ["raise-" + n for n in _builtin_exceptions()]
 
 
 def make_conn(cfg=None, channel=None):
@@ -100,14 +110,15 @@ def ob_dispatch_request(run, interp):
                     return obj
                 if out == "tuple-with-ref":
                     return (1, obj)
-                if out == "raise-ValueError":
-                    raise ValueError("boom")
-                if out == "raise-StopIteration":
-                    raise StopIteration()
-                if out == "raise-SystemExit":
-                    raise SystemExit(3)
-                if out == "raise-KeyboardInterrupt":
-                    raise KeyboardInterrupt()
+                if out.startswith("raise-"):
+                    import builtins
+                    cls = getattr(builtins, out[6:])
+                    try:
+                        e = cls.__new__(cls)
+                        e.args = ("boom",)
+                    except TypeError:
+                        e = cls("group", [ValueError(1)])
+                    raise e
                 return 0
             conn._HANDLERS = dict(conn._HANDLERS)
             conn._HANDLERS[consts.HANDLE_PING] = spy
@@ -232,10 +243,14 @@ def spy(self, *a):
     if out == "value-tuple": return (10 ** 5000 if big else 7, None, b"x")
     if out == "reference": return obj
     if out == "tuple-with-ref": return (1, obj)
-    if out == "raise-ValueError": raise ValueError("boom")
-    if out == "raise-StopIteration": raise StopIteration()
-    if out == "raise-SystemExit": raise SystemExit(3)
-    if out == "raise-KeyboardInterrupt": raise KeyboardInterrupt()
+    if out.startswith("raise-"):
+        import builtins
+        cls = getattr(builtins, out[6:])
+        try:
+            e = cls.__new__(cls); e.args = ("boom",)
+        except TypeError:
+            e = cls("group", [ValueError(1)])
+        raise e
     return 0
 conn._HANDLERS = dict(conn._HANDLERS); conn._HANDLERS[consts.HANDLE_PING] = spy
 boxed = (consts.LABEL_TUPLE, ((consts.LABEL_VALUE, 5),))
